@@ -6,7 +6,7 @@ import os, re, sys
 
 VERIF = os.path.dirname(os.path.dirname(os.path.abspath(__file__)))
 REPO = os.environ.get('VERIF_REPO', '/repo')
-OUT = os.path.join(VERIF, 'coq', 'Gen')
+OUT = os.environ.get('VERIF_GEN_OUT', os.path.join(VERIF, 'coq', 'Gen'))
 
 
 def strip_comments(s):
@@ -34,15 +34,17 @@ def func_body(src, header_re):
 def switch_table(body):
     """body of `switch (X) { case N: ... return true; } return false;` -> (list of ints, problems)"""
     problems = []
-    cases = [int(x) for x in re.findall(r'\bcase\s+(\d+)[UuLl]*\s*:', body)]
-    rest = re.sub(r'\bcase\s+\d+[UuLl]*\s*:', ' ', body)
+    cases = [int(x, 0) for x in re.findall(r'\bcase\s+(0[xX][0-9a-fA-F]+|\d+)[UuLl]*\s*:', body)]
+    rest = re.sub(r'\bcase\s+(?:0[xX][0-9a-fA-F]+|\d+)[UuLl]*\s*:', ' ', body)
     rest = re.sub(r'\bswitch\s*\(\s*\w+\s*\)', ' ', rest)
     rest = re.sub(r'\breturn\s+true\s*;', ' ', rest, count=1)
     rest = re.sub(r'\breturn\s+false\s*;', ' ', rest, count=1)
     rest = re.sub(r'[{}\s]', '', rest)
     if rest:
         problems.append(rest[:80])
-    return cases, problems
+    if len(set(cases)) != len(cases):
+        problems.append('duplicate case label')
+    return sorted(cases), problems       # a switch is a set: the order of the labels in the source has no meaning
 
 
 def array_table(src, name):
@@ -52,9 +54,9 @@ def array_table(src, name):
     items = [x.strip() for x in m.group(1).split(',') if x.strip()]
     vals, problems = [], []
     for x in items:
-        mm = re.fullmatch(r'(\d+)[UuLl]*', x)
-        if mm:
-            vals.append(int(mm.group(1)))
+        v = ceval(x, {})
+        if v is not None:
+            vals.append(v)
         else:
             problems.append(x[:40])
     if not vals or vals[-1] != 0:
@@ -67,15 +69,13 @@ def array_table(src, name):
 
 
 def range_expr(body, known):
-    """return ( A ) || ( B && C ) ... over PGN==N, N<=PGN, PGN<=N, calls of known functions -> Coq bool expression on variable p"""
-    m = re.fullmatch(r'\s*return\s+(.*?);\s*', body, flags=re.S)
-    if not m:
-        return None
-    e = m.group(1)
-    toks = re.findall(r'\d+[UuLl]*|\w+|==|<=|>=|\|\||&&|[()<>]', e)
-    if ''.join(toks) != re.sub(r'\s', '', e):
+    """body := { if ( E ) return E ; } return E ;   with E over PGN==N, N<=PGN, PGN<N ..., !, &&, ||, true/false, calls of known
+    functions on PGN  ->  Coq bool expression on the variable p (None outside this subset)"""
+    toks = re.findall(r'0[xX][0-9a-fA-F]+[UuLl]*|\d+[UuLl]*|\w+|==|!=|<=|>=|\|\||&&|[()<>!;]', body)
+    if ''.join(toks) != re.sub(r'\s', '', body):
         return None
     pos = [0]
+    NUM = r'0[xX][0-9a-fA-F]+[UuLl]*|\d+[UuLl]*'
 
     def peek():
         return toks[pos[0]] if pos[0] < len(toks) else None
@@ -88,25 +88,37 @@ def range_expr(body, known):
         return x
 
     def num(t):
-        return int(re.match(r'\d+', t).group(0))
+        return int(re.sub(r'[UuLl]+$', '', t), 0)
+
+    def cmp_expr(a, op, swapped):
+        # swapped: the literal stands left of PGN
+        if swapped:
+            op = {'<=': '>=', '<': '>', '>=': '<=', '>': '<', '==': '==', '!=': '!='}[op]
+        return {'<=': '(p <=? %d)' % a, '<': '(p <? %d)' % a, '==': '(p =? %d)' % a, '>=': '(%d <=? p)' % a, '>': '(%d <? p)' % a,
+                '!=': '(negb (p =? %d))' % a}[op]
 
     def atom():
         t = peek()
+        if t == '!':
+            eat()
+            return '(negb %s)' % atom()
         if t == '(':
             eat('(')
             x = orx()
             eat(')')
             return x
-        if re.fullmatch(r'\d+[UuLl]*', t):
+        if t in ('true', 'false'):
+            return eat()
+        if re.fullmatch(NUM, t):
             a = num(eat())
             op = eat()
             eat('PGN')
-            return {'<=': '(%d <=? p)' % a, '<': '(%d <? p)' % a, '==': '(p =? %d)' % a, '>=': '(p <=? %d)' % a, '>': '(p <? %d)' % a}[op]
+            return cmp_expr(a, op, True)
         if t == 'PGN':
             eat('PGN')
             op = eat()
             a = num(eat())
-            return {'<=': '(p <=? %d)' % a, '<': '(p <? %d)' % a, '==': '(p =? %d)' % a, '>=': '(%d <=? p)' % a, '>': '(%d <? p)' % a}[op]
+            return cmp_expr(a, op, False)
         if t in known:
             eat()
             eat('(')
@@ -128,13 +140,140 @@ def range_expr(body, known):
             eat()
             x = '(%s || %s)' % (x, andx())
         return x
-    try:
+
+    def stmts():
+        if peek() == 'if':
+            eat('if')
+            eat('(')
+            c = orx()
+            eat(')')
+            eat('return')
+            v = orx()
+            eat(';')
+            rest = stmts()
+            if v == 'true':
+                return '(%s || %s)' % (c, rest)
+            if v == 'false':
+                return '((negb %s) && %s)' % (c, rest)
+            return '((%s && %s) || ((negb %s) && %s))' % (c, v, c, rest)
+        eat('return')
         x = orx()
+        eat(';')
+        return x
+    try:
+        x = stmts()
         if peek() is not None:
             return None
         return x
-    except (ValueError, KeyError, AttributeError):
+    except (ValueError, KeyError, AttributeError, TypeError):
         return None
+
+
+def ceval(expr, macros, depth=0):
+    """value of a C integer constant expression over literals (decimal / hex, U/L suffixes), + - * / << >> | & ( ) and object-like
+    macros of the same kind (dict name -> replacement text); None when the text is anything else.  Only non-negative intermediate
+    values are accepted, so C and Python arithmetic agree."""
+    if depth > 12:
+        return None
+    toks = re.findall(r'0[xX][0-9a-fA-F]+[UuLl]*|\d+[UuLl]*|[A-Za-z_]\w*(?:::\w+)*|<<|>>|[-+*/|&()]', expr)
+    if ''.join(toks) != re.sub(r'\s', '', expr) or not toks:
+        return None
+    out = []
+    for t in toks:
+        if re.fullmatch(r'0[xX][0-9a-fA-F]+[UuLl]*|\d+[UuLl]*', t):
+            out.append(str(int(re.sub(r'[UuLl]+$', '', t), 0)))
+        elif re.match(r'[A-Za-z_]', t):
+            if t not in macros:
+                return None
+            v = ceval(macros[t], macros, depth + 1)
+            if v is None:
+                return None
+            out.append('(%d)' % v)
+        else:
+            out.append('//' if t == '/' else t)
+    try:
+        v = eval(' '.join(out), {'__builtins__': {}}, {})
+    except Exception:
+        return None
+    return v if isinstance(v, int) and 0 <= v < 2 ** 64 else None
+
+
+def macro_table(dm_text):
+    return {m.group(1): m.group(2).strip() for m in re.finditer(r'^#define[ \t]+(\w+)[ \t]+(.+)$', dm_text, flags=re.M)}
+
+
+PROBE_FUNCS = ['IsSingleFrameSystemMessage', 'IsFastPacketSystemMessage', 'IsDefaultSingleFrameMessage', 'IsMandatoryFastPacketMessage',
+               'IsDefaultFastPacketMessage', 'IgnoreBroadcastISORequest', 'IsProprietaryFastPacketMessage', 'tNMEA2000::IsProprietaryMessage']
+PROBE_LIMIT = 1 << 24
+
+
+def execute_tables():
+    """the classification functions as compiled, run over every PGN below 2^24: name -> list of maximal intervals (lo, hi).
+    Cross-check of the textual translation on every run, and its stand-in when a function leaves the translatable subset."""
+    import subprocess, tempfile, shutil
+    d = tempfile.mkdtemp(prefix='n2k_probe_')
+    try:
+        decl = ''.join('bool %s(unsigned long PGN);\n' % f for f in PROBE_FUNCS if '::' not in f)
+        src = ('#include <cstdio>\n#include "NMEA2000.h"\n' + decl + 'int main(){ bool (*f[])(unsigned long)={' + ','.join(PROBE_FUNCS) + '};\n'
+               ' for(int k=0;k<%d;k++){ printf("%%d:",k); bool prev=false; for(unsigned long p=0;p<=%dUL;p++){ bool v=p<%dUL&&f[k](p); if(v!=prev){printf(" %%lu",p); prev=v;} } printf("\\n"); } }\n'
+               % (len(PROBE_FUNCS), PROBE_LIMIT, PROBE_LIMIT))
+        open(os.path.join(d, 'probe.cpp'), 'w').write(src)
+        fl = ['-std=c++11', '-O1', '-DESP_PLATFORM', '-I' + os.path.join(VERIF, 'harness', 'fake_esp'), '-I' + os.path.join(REPO, 'src')]
+        for cmd in (['g++'] + fl + ['-c', os.path.join(REPO, 'src', 'NMEA2000.cpp'), '-o', os.path.join(d, 'n.o')],
+                    ['g++'] + fl + ['-no-pie', os.path.join(d, 'probe.cpp'), os.path.join(d, 'n.o'), '-Wl,--unresolved-symbols=ignore-all', '-o', os.path.join(d, 'probe')]):
+            if subprocess.run(cmd, stdout=subprocess.PIPE, stderr=subprocess.PIPE).returncode != 0:
+                return None
+        p = subprocess.run([os.path.join(d, 'probe')], stdout=subprocess.PIPE, stderr=subprocess.PIPE, text=True, timeout=120)
+        if p.returncode != 0:
+            return None
+        res = {}
+        for line in p.stdout.split('\n'):
+            if ':' in line:
+                k, rest = line.split(':', 1)
+                e = [int(x) for x in rest.split()]
+                res[PROBE_FUNCS[int(k)]] = [(e[i], e[i + 1] - 1) for i in range(0, len(e) - 1, 2)]
+        return res if len(res) == len(PROBE_FUNCS) else None
+    except Exception:
+        return None
+    finally:
+        shutil.rmtree(d, ignore_errors=True)
+
+
+def intervals_to_list(iv):
+    return [p for lo, hi in iv for p in range(lo, hi + 1)] if sum(hi - lo + 1 for lo, hi in iv) <= 4096 else None
+
+
+def intervals_to_expr(iv):
+    if not iv:
+        return 'false'
+    parts = ['(p =? %d)' % lo if lo == hi else '((%d <=? p) && (p <=? %d))' % (lo, hi) for lo, hi in iv]
+    e = parts[0]
+    for x in parts[1:]:
+        e = '(%s || %s)' % (e, x)
+    return e
+
+
+def expr_intervals(e, known_iv):
+    """truth set below PROBE_LIMIT of a generated Coq expression (python evaluation at the breakpoints) as maximal intervals"""
+    consts = sorted({int(x) for x in re.findall(r'\d+', e)} | {b for iv in known_iv.values() for lo, hi in iv for b in (lo, hi)})
+    pts = sorted({q for c in consts for q in (c - 1, c, c + 1) if 0 <= q < PROBE_LIMIT} | {0, PROBE_LIMIT - 1})
+    py = e
+    py = re.sub(r'\((\w+) p\)', lambda m: 'K[%r](p)' % m.group(1), py)
+    py = py.replace('<=?', '<=').replace('<?', '<').replace('=?', '==').replace('&&', ' and ').replace('||', ' or ').replace('negb', ' not ')
+    py = py.replace('true', 'True').replace('false', 'False')
+    K = {k: (lambda iv: (lambda p: any(lo <= p <= hi for lo, hi in iv)))(iv) for k, iv in known_iv.items()}
+    vals = [(q, bool(eval(py, {'__builtins__': {}}, {'p': q, 'K': K}))) for q in pts]
+    out, start = [], None
+    for i, (q, v) in enumerate(vals):
+        if v and start is None:
+            start = q
+        if not v and start is not None:
+            out.append((start, vals[i - 1][0]))
+            start = None
+    if start is not None:
+        out.append((start, vals[-1][0]))
+    # consecutive sample points with equal value bound a constant stretch (all breakpoints are sampled), so joining them is exact
+    return out
 
 
 def zlist(v):
@@ -165,35 +304,57 @@ def main():
     tables = [('IsSingleFrameSystemMessage', 'single_frame_system'), ('IsFastPacketSystemMessage', 'fast_packet_system'),
               ('IsDefaultSingleFrameMessage', 'default_single_frame'), ('IsMandatoryFastPacketMessage', 'mandatory_fast_packet'),
               ('IsDefaultFastPacketMessage', 'default_fast_packet'), ('IgnoreBroadcastISORequest', 'ignore_broadcast_iso_request')]
+    ex = execute_tables()
+    if ex is None:
+        problems.append('the classification functions could not be compiled and run (cross-check by execution)')
+    notes = []
     for cname, gname in tables:
         body = func_body(cpp, r'\bbool\s+%s\s*\(\s*unsigned\s+long\s+\w+\s*\)\s*\{' % cname)
-        if body is None:
-            problems.append('%s: function not found' % cname)
-            out.append('Definition %s_list : list Z := [].' % gname)
-        else:
-            cases, pr = switch_table(body)
+        cases, pr = switch_table(body) if body is not None else ([], ['function not found'])
+        byex = intervals_to_list(ex[cname]) if ex is not None else None
+        if pr and byex is not None:
+            # outside the textual subset: the table is the truth set of the compiled function over PGN < 2^24
+            notes.append('%s: %s - table taken from the execution of the compiled function over PGN < 2^24' % (cname, pr[0]))
+            cases = byex
+        elif pr:
             problems += ['%s: untranslated text `%s`' % (cname, x) for x in pr]
-            out.append('Definition %s_list : list Z := %s.' % (gname, zlist(cases)))
+        elif byex is not None and byex != cases:
+            problems.append('%s: the switch labels read from the text and the compiled function disagree below 2^24' % cname)
+        out.append('Definition %s_list : list Z := %s.' % (gname, zlist(cases)))
         out.append('Definition is_%s (p:Z) : bool := existsb (Z.eqb p) %s_list.' % (gname, gname))
         out.append('')
-    known = {}
+    known, known_iv = {}, {}
     for cname, gname, hdr in [('IsProprietaryFastPacketMessage', 'is_proprietary_fast_packet', r'\bbool\s+IsProprietaryFastPacketMessage\s*\(\s*unsigned\s+long\s+PGN\s*\)\s*\{'),
                               ('IsProprietaryMessage', 'is_proprietary', r'\bbool\s+tNMEA2000::IsProprietaryMessage\s*\(\s*unsigned\s+long\s+PGN\s*\)\s*\{')]:
         body = func_body(cpp, hdr)
         e = range_expr(body, known) if body is not None else None
-        if e is None:
+        exiv = ex[cname if cname in ex else 'tNMEA2000::' + cname] if ex is not None else None
+        if e is not None and exiv is not None:
+            try:
+                if expr_intervals(e, known_iv) != exiv:
+                    problems.append('%s: the expression read from the text and the compiled function disagree below 2^24' % cname)
+            except Exception as x:
+                problems.append('%s: cross-check failed (%s)' % (cname, x))
+        if e is None and exiv is not None and (not exiv or exiv[-1][1] < PROBE_LIMIT - 1):
+            notes.append('%s: body outside the textual subset - intervals taken from the execution of the compiled function over PGN < 2^24' % cname)
+            e = intervals_to_expr(exiv)
+        elif e is None:
             problems.append('%s: body outside the translatable subset' % cname)
             e = 'false'
         out.append('Definition %s (p:Z) : bool := %s.' % (gname, e))
         out.append('')
         known[cname] = gname
+        if exiv is not None:
+            known_iv[gname] = exiv
     for cname, gname in [('DefTransmitMessages', 'def_transmit_messages'), ('DefReceiveMessages', 'def_receive_messages')]:
         vals, pr = array_table(cpp, cname)
         problems += ['%s: %s' % (cname, x) for x in pr]
         out.append('Definition %s : list Z := %s.' % (gname, zlist(vals or [])))
         out.append('')
+    for n_ in notes:
+        out.append('(* note: %s *)' % n_.replace('*)', '* )'))
     out.append('(* items that left the translatable subset (must be empty for the obligations that use these tables) *)')
-    out.append('Definition untranslated_tables : list nat := %s.' % ('[' + '; '.join(str(i) for i, _ in enumerate(problems)) + ']'))
+    out.append('Definition untranslated_tables : list nat := %s.' % ('[' + '; '.join('%d%%nat' % i for i, _ in enumerate(problems)) + ']'))
     for i, p in enumerate(problems):
         out.append('(* untranslated %d: %s *)' % (i, p.replace('*)', '* )')))
     write_if_changed(os.path.join(OUT, 'GenTables.v'), '\n'.join(out) + '\n')
@@ -210,29 +371,30 @@ def main():
     cout = ['(* GENERATED by tools/gen_tables.py from <repo>/src - do not edit *)', 'From Coq Require Import ZArith.', 'Local Open Scope Z_scope.', '']
     cprob = []
     cache = {}
+    def lit(v):
+        return str(v)
     for name, f in consts:
         f = f.replace('.h', '.cpp') if f in ('NMEA2000.h',) else f
         if f not in cache:
-            cache[f] = preprocess(f, macros=True)
-        m = re.search(r'#define\s+%s\s+\(?\s*(-?\d+)[UuLl]*\s*\)?\s*$' % name, cache[f], flags=re.M)
-        if m:
-            cout.append('Definition c_%s : Z := %s.' % (name, m.group(1) if not m.group(1).startswith('-') else '(%s)' % m.group(1)))
+            cache[f] = macro_table(preprocess(f, macros=True))
+        v = ceval(cache[f][name], cache[f]) if name in cache[f] else None
+        if v is not None:
+            cout.append('Definition c_%s : Z := %s.' % (name, lit(v)))
         else:
             cprob.append(name)
-            cout.append('(* %s: not found as a plain #define in %s *)' % (name, f))
-    for name, f, rx in [('MaxDataLen', 'N2kMsg.h', r'static\s+const\s+int\s+MaxDataLen\s*=\s*(\d+)\s*;'),
-                        ('MaxReadFramesOnParse', 'NMEA2000.cpp', r'static\s+const\s+int\s+MaxReadFramesOnParse\s*=\s*(\d+)\s*;'),
+            cout.append('(* %s: not found as an integer constant #define in %s *)' % (name, f))
+    mdl_txt = strip_comments(open(os.path.join(REPO, 'src', 'N2kMsg.h')).read()) if os.path.exists(os.path.join(REPO, 'src', 'N2kMsg.h')) else ''
+    mm = re.search(r'static\s+const\s+int\s+MaxDataLen\s*=\s*([^;]+);', mdl_txt)
+    mdl = ceval(mm.group(1), {}) if mm else None
+    for name, f, rx in [('MaxDataLen', 'N2kMsg.h', r'static\s+const\s+int\s+MaxDataLen\s*=\s*([^;]+);'),
+                        ('MaxReadFramesOnParse', 'NMEA2000.cpp', r'static\s+const\s+int\s+MaxReadFramesOnParse\s*=\s*([^;]+);'),
                         ('MaxActisenseMsgBuf', 'N2kMsg.cpp', r'#define\s+MaxActisenseMsgBuf\s+([^\n]+)'),
-                        ('DefaultHeartbeatInterval', 'NMEA2000.h', r'#define\s+DefaultHeartbeatInterval\s+(\d+)')]:
+                        ('DefaultHeartbeatInterval', 'NMEA2000.h', r'#define\s+DefaultHeartbeatInterval\s+([^\n]+)')]:
         p = os.path.join(REPO, 'src', f)
         txt = strip_comments(open(p).read()) if os.path.exists(p) else ''
         m = re.search(rx, txt)
-        val = m.group(1).strip() if m else None
-        if val is not None and not val.isdigit():
-            # a constant expression over literals and tN2kMsg::MaxDataLen: evaluated here
-            mm = re.search(r'static\s+const\s+int\s+MaxDataLen\s*=\s*(\d+)\s*;', strip_comments(open(os.path.join(REPO, 'src', 'N2kMsg.h')).read()))
-            e = val.replace('tN2kMsg::MaxDataLen', mm.group(1) if mm else 'X')
-            val = str(eval(e)) if re.fullmatch(r'[\d\s()+*\-]+', e) else None
+        # a constant expression over literals and tN2kMsg::MaxDataLen: evaluated here
+        val = ceval(m.group(1).strip(), {'tN2kMsg::MaxDataLen': str(mdl), 'MaxDataLen': str(mdl)} if mdl is not None else {}) if m else None
         if val is not None:
             cout.append('Definition c_%s : Z := %s.' % (name, val))
         else:
